@@ -180,6 +180,29 @@ pub fn generate(seed: u64, tier: Tier) -> Case {
         params.notes.push("env:stray_input_nodes".into());
     }
 
+    // Symbolic links inside the input tree: the linked file / directory is a module (or a tree
+    // of modules) of its own under the link's path.
+    if rng.chance(1, 6) {
+        let mods: Vec<String> = world.module_files().iter().map(|(p, _)| p.clone()).collect();
+        if !mods.is_empty() {
+            let k = rng.below(100);
+            let target = rng.pick(&mods).clone();
+            if rng.chance(1, 2) {
+                world.input.push(Node::Symlink {
+                    path: format!("alias{k}.pyxis"),
+                    target,
+                });
+                params.notes.push("env:symlink_to_module_file".into());
+            } else if let Some((dir, _)) = target.split_once('/') {
+                world.input.push(Node::Symlink {
+                    path: format!("linkdir{k}"),
+                    target: dir.to_string(),
+                });
+                params.notes.push("env:symlink_to_directory".into());
+            }
+        }
+    }
+
     // Input directory names and spellings.
     match rng.below(16) {
         0 => {
